@@ -17,6 +17,10 @@ pub const K_RETTMP: &str = "C07:borrowed-wrapped-return:ctx-clone-not-released";
 
 // ---- the context payload: records where it is dropped ------------------------------------------
 
+// over-aligned: the reference-count header of its Arc is then NOT where a clone/drop function
+// instantiated for the erased type (c_void) would look for it, so a derived object that does not
+// use the context's own stored functions corrupts the count visibly
+#[repr(align(64))]
 pub struct Payload {
     pub tok: HeapTok,
     pub drop_site: Arc<Mutex<Option<String>>>,
